@@ -89,7 +89,12 @@ pub fn make_builder_keys(
 
     locales.merge_plurals(warnings)?;
 
-    resolve_foreign_keys(&locales, &cfg_file.default, foreign_keys_paths.into_inner())?;
+    resolve_foreign_keys(
+        &locales,
+        &cfg_file.default,
+        &cfg_file.extensions,
+        foreign_keys_paths.into_inner(),
+    )?;
 
     check_locales(locales, &cfg_file.extensions, warnings)
 }
@@ -115,13 +120,14 @@ pub fn parse_locales(
 fn resolve_foreign_keys(
     values: &LocalesOrNamespaces,
     default_locale: &Key,
+    extensions: &BTreeMap<Key, Key>,
     foreign_keys_paths: BTreeSet<(Key, KeyPath)>,
 ) -> Result<()> {
     for (locale, value_path) in foreign_keys_paths {
         let value = values
             .get_value_at(&locale, &value_path)
             .unwrap_at("resolve_foreign_keys_1");
-        value.resolve_foreign_key(values, &locale, default_locale, &value_path)?;
+        value.resolve_foreign_key(values, &locale, default_locale, extensions, &value_path)?;
     }
     Ok(())
 }
